@@ -59,11 +59,113 @@ def handleFixloop (j : Json) : Option Json := do
   let st := fixLoop (fun i => nxt.getD i 0) m init init
   some (Json.mkObj [("state", Json.num st)])
 
+def parseOp (s : String) : Option C17.Op :=
+  match s with
+  | "eq" => some .eq | "ne" => some .ne | "gt" => some .gt | "ge" => some .ge | "lt" => some .lt | "le" => some .le
+  | _ => none
+
+def getBool? (j : Json) : Option Bool := match j.getBool? with | .ok b => some b | _ => none
+
+/-- item: ["cmp", var, op, c, flipped, neg, direct] | ["atom", id, neg, direct] -/
+def parseItem (j : Json) : Option C17.Item := do
+  let a ← getArr? j
+  match (← getStr? a[0]!) with
+  | "cmp" =>
+    if a.size != 7 then none
+    some (.cmp (← getNat? a[1]!) (← (getStr? a[2]!) >>= parseOp) (← getInt? a[3]!) (← getBool? a[4]!) (← getBool? a[5]!) (← getBool? a[6]!))
+  | "atom" =>
+    if a.size != 4 then none
+    some (.atom (← getNat? a[1]!) (← getBool? a[2]!) (← getBool? a[3]!))
+  | _ => none
+
+def handleBounds (j : Json) : Option Json := do
+  let isAnd ← (field? j "isAnd") >>= getBool?
+  let items ← (field? j "items") >>= getArr?
+  let items ← items.toList.mapM parseItem
+  match C17.simplifyNode Generated.boundTable isAnd items with
+  | .const b => some (Json.mkObj [("r", "const"), ("v", Json.bool b)])
+  | .drop idxs => some (Json.mkObj [("r", "drop"), ("idx", Json.arr (idxs.map (fun (n : Nat) => Json.num n)).toArray)])
+  | .none => some (Json.mkObj [("r", "none")])
+
+def parseCOp (s : String) : Option C17.COp :=
+  match s with
+  | "eq" => some .eq | "ne" => some .ne | "gt" => some .gt | "ge" => some .ge | "lt" => some .lt | "le" => some .le
+  | "in_" => some .in_ | "notIn" => some .notIn | "is_" => some .is_ | "isNot" => some .isNot
+  | _ => none
+
+def copName : C17.COp → String
+  | .eq => "eq" | .ne => "ne" | .gt => "gt" | .ge => "ge" | .lt => "lt" | .le => "le"
+  | .in_ => "in_" | .notIn => "notIn" | .is_ => "is_" | .isNot => "isNot"
+
+def parseTerm (j : Json) : Option C17.Term := do
+  let a ← getArr? j
+  if a.size != 2 then none
+  match (← getStr? a[0]!) with
+  | "var" => some (.var (← getNat? a[1]!))
+  | "const" => some (.const (← getInt? a[1]!))
+  | _ => none
+
+def termJson : C17.Term → Json
+  | .var n => Json.arr #["var", Json.num n]
+  | .const c => Json.arr #["const", Json.num (JsonNumber.fromInt c)]
+
+partial def parseCond (j : Json) : Option C17.Cond := do
+  let a ← getArr? j
+  match (← getStr? a[0]!) with
+  | "cmp" => if a.size != 4 then none else some (.cmp (← parseTerm a[1]!) (← (getStr? a[2]!) >>= parseCOp) (← parseTerm a[3]!))
+  | "atom" => if a.size != 2 then none else some (.atom (← getNat? a[1]!))
+  | "not" => if a.size != 2 then none else some (.not (← parseCond a[1]!))
+  | "and" => if a.size != 2 then none else some (.and (← (← getArr? a[1]!).toList.mapM parseCond))
+  | "or" => if a.size != 2 then none else some (.or (← (← getArr? a[1]!).toList.mapM parseCond))
+  | _ => none
+
+partial def condJson : C17.Cond → Json
+  | .cmp l op r => Json.arr #["cmp", termJson l, copName op, termJson r]
+  | .atom i => Json.arr #["atom", Json.num i]
+  | .not c => Json.arr #["not", condJson c]
+  | .and cs => Json.arr #["and", Json.arr (cs.map condJson).toArray]
+  | .or cs => Json.arr #["or", Json.arr (cs.map condJson).toArray]
+
+def handleNegate (j : Json) : Option Json := do
+  let c ← (field? j "c") >>= parseCond
+  some (Json.mkObj [("negate", condJson (C17.negate Generated.reverseOps c)),
+                    ("flip", condJson (C17.flipNegated Generated.reverseOps c))])
+
+def parseRCond (j : Json) : Option C17.RCond := do
+  let a ← getArr? j
+  if a.size != 2 then none
+  match (← getStr? a[0]!) with
+  | "gt" => some (.gt (← getInt? a[1]!)) | "lt" => some (.lt (← getInt? a[1]!))
+  | "ge" => some (.ge (← getInt? a[1]!)) | "le" => some (.le (← getInt? a[1]!))
+  | "eq" => some (.eq (← getInt? a[1]!)) | "other" => some (.other (← getNat? a[1]!))
+  | _ => none
+
+def handleRangeFold (j : Json) : Option Json := do
+  let start ← (field? j "start") >>= getInt?
+  let stop ← (field? j "stop") >>= getInt?
+  let cs ← (field? j "conds") >>= getArr?
+  let cs ← cs.toList.mapM parseRCond
+  match C17.rangeFold start stop cs with
+  | .none => some (Json.mkObj [("r", "none")])
+  | .empty => some (Json.mkObj [("r", "empty")])
+  | .range s e marked => some (Json.mkObj [("r", "range"), ("start", Json.num (JsonNumber.fromInt s)),
+      ("stop", Json.num (JsonNumber.fromInt e)), ("red", Json.arr (marked.map (fun p => Json.bool p.2)).toArray)])
+
+def handleSumRange (j : Json) : Option Json := do
+  let a ← (field? j "a") >>= getInt?
+  let b ← (field? j "b") >>= getInt?
+  some (Json.mkObj [("closed", Json.num (JsonNumber.fromInt (C17.sumClosed a b))),
+                    ("sum", Json.num (JsonNumber.fromInt (C17.listSum (C17.intRange a b))))])
+
 def dispatch (j : Json) : Json :=
   match (field? j "suite") >>= getStr? with
   | some "sched" => (handleSched j).getD bad
   | some "lines" => (handleLines j).getD bad
   | some "fixloop" => (handleFixloop j).getD bad
+  | some "bounds" => (handleBounds j).getD bad
+  | some "negate" => (handleNegate j).getD bad
+  | some "rangefold" => (handleRangeFold j).getD bad
+  | some "sumrange" => (handleSumRange j).getD bad
   | _ => bad
 
 partial def loop (h : IO.FS.Stream) (out : IO.FS.Stream) : IO Unit := do
